@@ -67,17 +67,51 @@ Proof. split; [eexists; eexists; split; [vm_compute; reflexivity|reflexivity]|vm
 
    Vocabulary.  [index_of s vals] is the DECLARED POSITION of s (C17_position: with a duplicate-free table it is
    the only p with vals[p] = s).  [mask_or b m] (Proofs/FilterProofs.v) is the shared filter mask afterwards: a row
-   that matched before stays, every other row k gets m[k].  A declaration is duplicate-free in all theorems below
-   (NoDup values; the derived case values = [] is included) — with a value declared twice the factory stores the
-   LAST position and the filter looks up the FIRST one, see the report. *)
+   that matched before stays, every other row k gets m[k].  The declaration of a column the factory returned is
+   duplicate-free (C17_duplicate_declaration_rejected / C17_declaration_nodup: NewFactory rejects a declaration
+   that lists a value twice), so no theorem below needs that as a premise. *)
 
 Theorem C17_position (l : list bytes) s p : NoDup l -> (index_of s l = Some p <-> nth_error l p = Some s).
 Proof. exact (index_of_spec l s p). Qed.
 Print Assumptions C17_position.
 
+(* a declaration that lists a value twice is REJECTED: by the factory (ecolumn.New through NewFactory, whatever
+   the data), by NewConst, hence by createColumn for every kind of string data, by the enum branch of ReadCSV's
+   columnToData; and New returns the Err frame (no columns, Err set) for such an Enums entry of a string column,
+   whatever else is supplied *)
+Theorem C17_duplicate_declaration_rejected (values : list bytes) :
+  ~ NoDup values ->
+  (forall data, enum_new data values = Fail)
+  /\ (forall v n, enum_new_const v n values = Fail)
+  /\ (forall d, is_string_data d = true -> create_column d (Some values) = Fail)
+  /\ (forall pi pf pb e cells, column_to_data pi pf pb e DEnum (Some values) cells = Fail)
+  /\ (forall data enums n dn order,
+       assocb n data = Some dn -> is_string_data dn = true -> assocb n enums = Some values ->
+       new_frame data order enums = Ok (mkFrame [] [] true)).
+Proof.
+  intro H. split; [intro data; exact (enum_new_duplicate_rejected data values H)|].
+  split; [intros v n; exact (enum_new_const_duplicate_rejected v n values H)|].
+  split; [intros d Hd; exact (create_column_duplicate_rejected d values Hd H)|].
+  split; [intros pi pf pb e cells; exact (csv_enum_duplicate_rejected pi pf pb e (Some values) cells H)|].
+  intros data enums n dn order Hd Hs He. exact (new_frame_duplicate_err data enums n dn values order Hd Hs He H).
+Qed.
+Print Assumptions C17_duplicate_declaration_rejected.
+
+(* ... so a column that WAS constructed has a duplicate-free declaration *)
+Theorem C17_declaration_nodup (values : list bytes) :
+  (forall data c, enum_new data values = Ok c -> NoDup values)
+  /\ (forall v n c, enum_new_const v n values = Ok c -> NoDup values)
+  /\ (forall pi pf pb e cells c, column_to_data pi pf pb e DEnum (Some values) cells = Ok c -> NoDup values).
+Proof.
+  split; [intros data c; exact (enum_new_ok_nodup data values c)|].
+  split; [intros v n c; exact (enum_new_const_ok_nodup v n values c)|].
+  intros pi pf pb e cells c. exact (csv_enum_ok_nodup pi pf pb e (Some values) cells c).
+Qed.
+Print Assumptions C17_declaration_nodup.
+
 (* the value table the factory returns is duplicate-free (so that "the position" makes sense), also when derived *)
 Theorem C17_table_nodup data values d vals strict :
-  NoDup values -> enum_new data values = Ok (ECol d vals strict) -> NoDup vals.
+  enum_new data values = Ok (ECol d vals strict) -> NoDup vals.
 Proof. exact (enum_new_nodup data values d vals strict). Qed.
 Print Assumptions C17_table_nodup.
 
@@ -86,7 +120,7 @@ Print Assumptions C17_table_nodup.
    constant; a null row matches only != .  [enum_row_sat] is that sentence as a function of the cell. *)
 Definition C17_filter_order_statement : Prop :=
   forall mt data values d vals strict cmp op s pc index b,
-  enum_new data values = Ok (ECol d vals strict) -> NoDup values ->
+  enum_new data values = Ok (ECol d vals strict) ->
   cop_of cmp = Some op -> nth_error vals pc = Some s ->
   length index = length b -> Forall (fun p => p < length data) index ->
   e_filter_builtin mt d vals strict index cmp (RConst (AStr s)) b
@@ -144,7 +178,7 @@ Print Assumptions C17_bitset_null.
 (* "in": the rows whose value is one of the listed strings; null rows never; undeclared strings in the list are
    not an error (as in the Go code) *)
 Theorem C17_filter_in mt data values d vals strict l index b :
-  enum_new data values = Ok (ECol d vals strict) -> NoDup values ->
+  enum_new data values = Ok (ECol d vals strict) ->
   length index = length b -> Forall (fun p => p < length data) index ->
   e_filter_builtin mt d vals strict index (bs 2 0x696e) (RConst (AStrs l)) b
   = Ok (mask_or b (map (fun p => match nth p data None with
@@ -158,7 +192,7 @@ Print Assumptions C17_filter_in.
    a pattern that does not compile is an error.  (The matcher is an oracle table of the case: [find_matcher];
    a pattern the case did not record shows as Panic.) *)
 Theorem C17_filter_like mt data values d vals strict (cs : bool) pat index b :
-  enum_new data values = Ok (ECol d vals strict) -> NoDup values ->
+  enum_new data values = Ok (ECol d vals strict) ->
   length index = length b -> Forall (fun p => p < length data) index ->
   e_filter_builtin mt d vals strict index (if cs then bs 4 0x6c696b65 else bs 5 0x696c696b65) (RConst (AStr pat)) b
   = match find_matcher mt pat cs with
@@ -175,7 +209,7 @@ Print Assumptions C17_filter_like.
    Sorter.Less with this single key is that order. *)
 Definition C17_sort_order_statement : Prop :=
   forall data values d vals strict,
-  enum_new data values = Ok (ECol d vals strict) -> NoDup values ->
+  enum_new data values = Ok (ECol d vals strict) ->
   forall (rev nl : bool) i j, i < length data -> j < length data ->
     let pos (c : option bytes) : option nat := match c with None => None | Some v => index_of v vals end in
     let lt (x y : option nat) : bool := match x, y with
@@ -195,7 +229,7 @@ Print Assumptions C17_sort_order.
 
 (* the key the sort engine computes from the strings (position in the declared values, None for null) is this key *)
 Theorem C17_sort_key data values d vals strict :
-  enum_new data values = Ok (ECol d vals strict) -> NoDup values ->
+  enum_new data values = Ok (ECol d vals strict) ->
   KEnum (map (fun c => match c with None => None | Some s => find_value_last vals s end) data)
   = KEnum (map (fun r => if enum_is_null r then None else Some r) d).
 Proof. exact (enum_key_of_ranks data values d vals strict). Qed.
@@ -336,7 +370,7 @@ Print Assumptions C17_overflow.
    compares by declared position, in index order *)
 Theorem C17_frame_filter_order mt (f : Frame.frame) col data values d vals strict cmp op s pc :
   ferr f = false -> lookup_col f col = Some (ECol d vals strict) ->
-  enum_new data values = Ok (ECol d vals strict) -> NoDup values ->
+  enum_new data values = Ok (ECol d vals strict) ->
   cop_of cmp = Some op -> nth_error vals pc = Some s ->
   Forall (fun p => p < length data) (ix f) ->
   frame_filter mt f (CLeaf (mkLeaf col (CmpName cmp) (AStr s) false))
@@ -361,7 +395,7 @@ Print Assumptions C17_frame_filter_undeclared.
 
 Theorem C17_frame_filter_in mt (f : Frame.frame) col data values d vals strict l :
   ferr f = false -> lookup_col f col = Some (ECol d vals strict) ->
-  enum_new data values = Ok (ECol d vals strict) -> NoDup values ->
+  enum_new data values = Ok (ECol d vals strict) ->
   Forall (fun p => p < length data) (ix f) ->
   frame_filter mt f (CLeaf (mkLeaf col (CmpName (bs 2 0x696e)) (AStrs l) false))
   = Ok (with_ix f (filter (fun p => match nth p data None with
@@ -390,6 +424,15 @@ Theorem C17_csv_convert_strict pi pf pb conf headers cols acc k h cells values c
   forall r, convert_cols pi pf pb conf headers cols (cf_enum_vals conf) acc <> Ok r.
 Proof. exact (csv_convert_strict pi pf pb conf headers cols acc k h cells values c). Qed.
 Print Assumptions C17_csv_convert_strict.
+
+(* ... nor when its EnumVals entry lists a value twice, whatever the cells *)
+Theorem C17_csv_convert_duplicate_rejected pi pf pb conf headers cols acc k h cells values :
+  nth_error headers k = Some h -> nth_error cols k = Some cells -> ~ In h (firstn k headers) ->
+  match assoc h (cf_types conf) with Some s => dtype_of s | None => DNone end = DEnum ->
+  assoc h (cf_enum_vals conf) = Some values -> ~ NoDup values ->
+  forall r, convert_cols pi pf pb conf headers cols (cf_enum_vals conf) acc <> Ok r.
+Proof. exact (csv_convert_duplicate_rejected pi pf pb conf headers cols acc k h cells values). Qed.
+Print Assumptions C17_csv_convert_duplicate_rejected.
 
 Definition ex_frame : Frame.frame := mkFrame [([67%N], ECol ex_d ex_values true)] [4; 0; 3; 2; 1] false.
 
@@ -427,8 +470,8 @@ Proof. split; [vm_compute; lia|vm_compute; reflexivity]. Qed.
    declared positions compare; != also holds when one of the cells is null; enum columns over different value
    tables (or of different physical length) cannot be compared: error *)
 Theorem C17_filter_columns mt data values d vals strict data2 values2 d2 strict2 cmp op index b :
-  enum_new data values = Ok (ECol d vals strict) -> NoDup values ->
-  enum_new data2 values2 = Ok (ECol d2 vals strict2) -> NoDup values2 ->
+  enum_new data values = Ok (ECol d vals strict) ->
+  enum_new data2 values2 = Ok (ECol d2 vals strict2) ->
   length data2 = length data -> cop_of cmp = Some op ->
   length index = length b -> Forall (fun p => p < length data) index ->
   e_filter_builtin mt d vals strict index cmp (RCol (ECol d2 vals strict2)) b
@@ -457,21 +500,27 @@ Example C17_ex_columns :
        [false; false; false; false; false] = Ok [true; false; false; true; false].
 Proof. split; vm_compute; reflexivity. Qed.
 
-(* Why NoDup: with a value declared twice the factory stores the LAST position (the Go map valToEnum is overwritten)
-   while filterBuiltIn looks up the FIRST one, so `= a` finds nothing although two cells hold a.  The model
-   reproduces the behaviour of the Go code (New(c: a,b,a; Enums c: a,b,a).Filter(c = "a") has 0 rows). *)
+(* The premise of C17_duplicate_declaration_rejected on a concrete input: the declaration a, b, a (before the
+   repair the factory accepted it and stored the LAST position of a while filterBuiltIn looked up the FIRST one, so
+   that New(c: a,b,a; Enums c: a,b,a).Filter(c = "a") had 0 rows).  Now every constructor refuses it. *)
 Example C17_duplicate_declaration :
   let vals := [[97%N]; [98%N]; [97%N]] in
-  enum_new [Some [97%N]; Some [98%N]; Some [97%N]] vals = Ok (ECol [2; 1; 2]%N vals true)
-  /\ e_filter_builtin [] [2; 1; 2]%N vals true [0; 1; 2] (bs 1 0x3d) (RConst (AStr [97%N])) [false; false; false]
-     = Ok [false; false; false].
-Proof. split; vm_compute; reflexivity. Qed.
+  ~ NoDup vals
+  /\ enum_new [Some [97%N]; Some [98%N]; Some [97%N]] vals = Fail
+  /\ enum_new_const (Some [97%N]) 2 vals = Fail
+  /\ create_column (DStrings [[97%N]; [98%N]]) (Some vals) = Fail
+  /\ column_to_data (fun _ => None) (fun _ => None) (fun _ => None) false DEnum (Some vals) [[97%N]; [98%N]] = Fail
+  /\ new_frame [([67%N], DStrings [[97%N]; [98%N]; [97%N]])] [] [([67%N], vals)] = Ok (mkFrame [] [] true).
+Proof.
+  cbv zeta. split; [|repeat split; vm_compute; reflexivity].
+  intro H. inversion H as [|? ? Hn _]; subst. apply Hn. right. left. reflexivity.
+Qed.
 
 (* Sort() with one enum key, the whole sorter (uses C03_sort_by_keys): it answers, returns every row of the index
    once, and no row is followed — at any distance — by a row that comes earlier in the declared order
    (null first, last with NullLast; Reverse inverting) *)
 Theorem C17_sort_sorted data values d vals strict (rev nl : bool) ids :
-  enum_new data values = Ok (ECol d vals strict) -> NoDup values ->
+  enum_new data values = Ok (ECol d vals strict) ->
   Forall (fun p => p < length data) ids ->
   exists out, sort_ids (model_lt [(enum_sort_key d, (rev, nl))]) ids = Ok out /\ Permutation out ids /\
     forall i j a b, i < j -> nth_error out i = Some a -> nth_error out j = Some b ->
@@ -504,23 +553,24 @@ Example C17_ex_csv_read :
 Proof. cbv zeta. split; vm_compute; reflexivity. Qed.
 
 (* ====================================================================================================
-   The property in ONE statement, for every duplicate-free declaration (derived case values = [] included) and
-   every data column: construction (never a panic; failure on an undeclared value and beyond 255 distinct
-   strings; otherwise a table of <= 255 duplicate-free values that is the declaration when there is one, every cell
+   The property in ONE statement, for every declaration (derived case values = [] included) and
+   every data column: construction (never a panic; failure on a declaration that lists a value twice, on an
+   undeclared value and beyond 255 distinct strings; otherwise a table of <= 255 duplicate-free values that is the declaration when there is one, every cell
    read back as itself, null as null), the six comparison filters (declared positions; nulls only for != ;
    undeclared constant: error when declared, no row / all rows for != when derived) and Sorter.Less on the column
    (declared positions, nulls first, last with NullLast, Reverse inverting).
    Not in this statement (separate theorems above): in/like, column against column, ReadCSV, New at frame level,
-   the sorter's output.  NOT proved at all: see the manifest text (duplicate declarations; QFrame.Sort's glue
+   the sorter's output.  NOT proved at all: see the manifest text (QFrame.Sort's glue
    from the frame to the sorter; Filter clauses other than a single positive leaf on enum columns). *)
 Definition C17_full_statement : Prop :=
-  forall (data : list (option bytes)) (values : list bytes), NoDup values ->
+  forall (data : list (option bytes)) (values : list bytes),
   (enum_new data values = Fail \/ exists d vals strict, enum_new data values = Ok (ECol d vals strict))
+  /\ (~ NoDup values -> enum_new data values = Fail)
   /\ ((exists b, values <> [] /\ In (Some b) data /\ ~ In b values) -> enum_new data values = Fail)
   /\ ((exists l, NoDup l /\ 255 < length l /\ forall s, In s l -> In (Some s) data \/ In s values) ->
       enum_new data values = Fail)
   /\ forall d vals strict, enum_new data values = Ok (ECol d vals strict) ->
-     length vals <= 255 /\ NoDup vals /\ (exists ext, vals = values ++ ext)
+     NoDup values /\ length vals <= 255 /\ NoDup vals /\ (exists ext, vals = values ++ ext)
      /\ (values <> [] -> vals = values /\ strict = true) /\ length d = length data
      /\ (forall k s, nth_error data k = Some s -> cell_at (ECol d vals strict) k = Ok (CEnum s))
      /\ (forall mt cmp op s index b,
@@ -548,7 +598,7 @@ Print Assumptions C17_full.
 
 (* null through filters: isnull keeps exactly the null cells, isnotnull exactly the others *)
 Theorem C17_filter_null mt (want_null : bool) data values d vals strict index b :
-  enum_new data values = Ok (ECol d vals strict) -> NoDup values ->
+  enum_new data values = Ok (ECol d vals strict) ->
   length index = length b -> Forall (fun p => p < length data) index ->
   e_filter_builtin mt d vals strict index (if want_null then bs 6 0x69736e756c6c else bs 9 0x69736e6f746e756c6c) (RConst ANil) b
   = Ok (mask_or b (map (fun p => match nth p data None with None => want_null | Some _ => negb want_null end) index)).
@@ -563,7 +613,7 @@ Proof. exact (enum_new_const_strict b n values). Qed.
 Print Assumptions C17_new_const_strict.
 
 Theorem C17_new_const_decode v n values d vals strict :
-  enum_new_const v n values = Ok (ECol d vals strict) -> length values <= 255 -> NoDup values ->
+  enum_new_const v n values = Ok (ECol d vals strict) -> length values <= 255 ->
   length d = n /\ (exists ext, vals = values ++ ext) /\ (values <> [] -> vals = values)
   /\ forall k, k < n -> cell_at (ECol d vals strict) k = Ok (CEnum v).
 Proof. exact (enum_new_const_decode v n values d vals strict). Qed.
